@@ -92,6 +92,20 @@ fn verif_replay_c09() {
     let thorough = std::env::var("VERIF_TIER").map(|t| t == "thorough").unwrap_or(false);
     let mut cases = 0u64;
     let sizes: &[usize] = if thorough { &[1, 2, 3, 7, 16, 64, 500] } else { &[1, 3, 16, 64] };
+    // one-item and two-item streams on small sketches (all items may land in one bin)
+    for kind in ["opt", "rev"] {
+        for m in 1usize..=6 {
+            for x in 0u64..(if thorough { 200 } else { 48 }) {
+                for items in [vec![x], vec![x, x + 1000]] {
+                    cases += 1;
+                    if let Some((o, e)) = check(kind, m, &items) {
+                        out(true, serde_json::json!({"kind": kind, "m": m, "items": items}), o, e, cases);
+                        std::process::exit(0);
+                    }
+                }
+            }
+        }
+    }
     for kind in ["opt", "rev"] {
         for &m in sizes {
             for n in [0usize, 1, 2, 5, 40, 300] {
